@@ -69,11 +69,6 @@ def resolve(glyphs, name, _m=IDENT, _stack=(), missing="skip"):
         pts = []
         for p in c:
             x, y = apply(_m, fr(p[0]), fr(p[1]))
-            if len(_stack) >= 2:
-                # reached through two or more nested references: the compiler multiplies the
-                # matrices in floating point (in an order that depends on which references it
-                # merges), so an exact half may arrive a last bit beside the boundary
-                x, y = DerivedF(x), DerivedF(y)
             pts.append([x, y, p[2], p[3] if len(p) > 3 else False])
         out.append((pts, flip))
     for comp in g.get("components", []):
